@@ -363,10 +363,28 @@ def program(rng, pid, ssa=None, shape=None, features=None):
         out = store(v, A) + alias(dst=q, src=v) + [mkref(v)] + store(v, A)
         return out + [{"op": "rload", "x": rng.choice(INTS), "ref": q, "r": A, "cls": 1}]
 
+    def symgep():
+        """two references into the same region whose distance is only known to lie in 0..1 (element 0 or 1 of an array):
+        write through the base, derive the second reference with a symbolic offset, write through it, read the base back"""
+        v = pick(cls_refs[1], lambda u: G["nn"][u] == "nn" and ok_deref(u) and G["off"][u] == 0 and not G["mdead"][u])
+        q = pick(cls_refs[1], lambda u: u != v and writable(u))
+        if shapeA != "array" or v is None or q is None:
+            return field()
+        i = rng.choice(INTS)
+        out = store(v, A)
+        set_ref(q, "nn", G["obj"][v], None, [])
+        out += [{"op": "havoc", "x": i}, {"op": "assume", "c": {"e": le_var(i, -1), "r": "le"}},
+                {"op": "assume", "c": {"e": le_var(i, 0, -1), "r": "le"}},
+                {"op": "gep", "x": q, "xr": A, "y": v, "yr": A, "off": le_var(i), "cls": 1, "ycls": 1}]
+        out += store(q, A)
+        return out + [{"op": "rload", "x": rng.choice([j for j in INTS if j != i] or INTS), "ref": v, "r": A, "cls": 1}]
+
     def one():
         r = rng.random()
         if not ssa and r < 0.06:
             return realloc()
+        if shapeA == "array" and 0.06 <= r < 0.12:
+            return symgep()
         if r < 0.22:
             return store()
         if r < 0.36:
